@@ -17,7 +17,10 @@ def sig_src(sig, method):
     # method: False / None = no receiver (function, staticmethod); True = "self"; a string = that receiver name
     parts = [method if isinstance(method, str) else "self"] if method else []
     star = False
-    for p in sig:
+    npo = sum(1 for p in sig if p["kind"] == "po")
+    for i, p in enumerate(sig):
+        if i == npo and npo:
+            parts.append("/")          # the parameters before it are positional-only
         if p["kind"] == "ko" and not star:
             parts.append("*")
             star = True
@@ -25,6 +28,8 @@ def sig_src(sig, method):
         if p["d"] is not None:
             s += " = %s" % val_src(p["d"]["v"])
         parts.append(s)
+    if npo and npo == len(sig):
+        parts.append("/")
     return ", ".join(parts)
 
 
@@ -36,7 +41,8 @@ def body_src(qual, sig, ret=True):
 def comp_src(c, out, expr_of):
     """Emit definitions for every function/class of the tree; expr_of[id(c)] = python expression naming it."""
     if c["k"] == "fn":
-        out.append("def %s(%s):\n    %s\n" % (c["name"], sig_src(c["sig"], False), body_src(c["name"], c["sig"])))
+        # a coroutine function is run by auto_cli through asyncio.run: same signature, same record
+        out.append("%sdef %s(%s):\n    %s\n" % ("async " if c.get("async") else "", c["name"], sig_src(c["sig"], False), body_src(c["name"], c["sig"])))
     elif c["k"] == "cls":
         out.append("class %s:\n    def __init__(%s):\n        %s\n" % (
             c["name"], sig_src(c["init"], True), body_src(c["name"] + ".__init__", c["init"], ret=False)))
@@ -51,8 +57,11 @@ def comp_src(c, out, expr_of):
                 out.append("    @classmethod\n    def %s(%s):\n        return _rec(%r if cls is %s else %r, %s)\n" % (
                     m, sig_src(s, "cls"), qual, c["name"], qual + ".BADRECEIVER", rec))
             else:
-                out.append("    def %s(%s):\n        return _rec(%r if type(self) is %s else %r, %s)\n" % (
-                    m, sig_src(s, True), qual, c["name"], qual + ".BADRECEIVER", rec))
+                # "prop": a property is a subcommand without parameters whose value is what auto_cli returns;
+                # "async": a coroutine method
+                deco = "    @property\n" if kind == "prop" else ""
+                out.append("%s    %sdef %s(%s):\n        return _rec(%r if type(self) is %s else %r, %s)\n" % (
+                    deco, "async " if kind == "async" else "", m, sig_src(s, True), qual, c["name"], qual + ".BADRECEIVER", rec))
     elif c["k"] == "grp":
         for _, kid in c["kids"]:
             comp_src(kid, out, expr_of)
@@ -66,14 +75,31 @@ def comp_expr(c):
     return "{" + ", ".join("%r: %s" % (k, comp_expr(kid)) for k, kid in c["kids"]) + "}"
 
 
-def program_src(comps):
-    out = ["from dataclasses import dataclass\nfrom typing import List, Optional\n", "LOG = []\n",
+HELPERS = ["from dataclasses import dataclass\nfrom typing import List, Optional\n", "LOG = []\n",
            "@dataclass\nclass Point:\n    x: int = 0\n    y: int = 0\n",
            "def _canon(v):\n"
            "    if type(v) is Point:\n        return {'x': v.x, 'y': v.y}\n"
            "    if v is None or type(v) in (int, str, bool) or (type(v) is list and all(type(i) is int for i in v)):\n        return v\n"
            "    return {'__other__': type(v).__name__}\n",
            "def _rec(name, args):\n    LOG.append([name, [[k, _canon(v)] for k, v in args]])\n    return ['R', len(LOG) - 1]\n"]
+
+
+def helper_src():
+    """The module `jvhelp`: the helpers of a program whose components are given IMPLICITLY (auto_cli() without
+    `components` takes every function / class DEFINED in the calling module, so the helpers must live elsewhere)."""
+    return "\n".join(HELPERS)
+
+
+def program_src(comps):
+    if comps.get("implicit"):
+        # auto_cli(args=...) called from this module without `components`: the components are the functions and
+        # classes defined here, in definition order; imported names (List, Optional, Point, _rec) are not components
+        out = ["from typing import List, Optional\nfrom jvhelp import LOG, Point, _rec\n"]
+        for c in comps["cs"]:
+            comp_src(c, out, None)
+        out.append("COMPONENTS = None   # auto_cli(args=argv) is called from this module\n")
+        return "\n".join(out)
+    out = list(HELPERS)
     if comps["form"] == "one":
         comp_src(comps["c"], out, None)
         expr = comp_expr(comps["c"])
